@@ -255,6 +255,63 @@ Proof.
   split; eexists; (split; [vm_compute; reflexivity | reflexivity]).
 Qed.
 
+(* ================================================================== hourly: the data class in front of predict === *)
+
+(* the frame handed to the model has the same weather and calendar whatever the usage cells of the caller's records are:
+   which record of a repeated time stamp survives is decided by the index alone (keep the first), the contiguous index
+   is a function of the selected index, every column is gap-filled from its own values *)
+Theorem C05_hourly_data_stage_ni : forall (Wc W O : Type) (w_empty : Wc -> bool)
+    (calendar : list Z -> list (list cal_stamp * option err)) (fill_w : list (option Wc) -> list W)
+    (fill_o : list (option O) -> list (option O)) (a b : list (rec Wc O)),
+  same_records_but_usage a b ->
+  same_weather_calendar (data_stage w_empty calendar fill_w fill_o KeepFirst a)
+                        (data_stage w_empty calendar fill_w fill_o KeepFirst b).
+Proof. exact @data_stage_ni. Qed.
+Print Assumptions C05_hourly_data_stage_ni.
+
+(* Full statement from the caller's records to the predictions, for a way of selecting among repeated stamps and a way of
+   counting the rows of a date *)
+Definition C05_hourly_public_statement (dp : dedup_policy) (pol : policy) : Prop :=
+  forall (Wc W O F C Y : Type) (K : oracles W O F C Y) (w_empty : Wc -> bool)
+         (calendar : list Z -> list (list cal_stamp * option err)) (fill_w : list (option Wc) -> list W)
+         (fill_o : list (option O) -> list (option O)) (t : table) (a b : list (rec Wc O)),
+    same_records_but_usage a b ->
+    covers t (data_stage w_empty calendar fill_w fill_o dp a) = true ->
+    agree (hourly_flow K pol t (data_stage w_empty calendar fill_w fill_o dp a))
+          (hourly_flow K pol t (data_stage w_empty calendar fill_w fill_o dp b)).
+
+Theorem C05_hourly_public_ni : forall pol, count_rows pol = true -> C05_hourly_public_statement KeepFirst pol.
+Proof.
+  intros pol Hp Wc W O F C Y K w_empty calendar fill_w fill_o t a b H Hc.
+  apply (C05_hourly_ni_count_rows pol Hp); [apply data_stage_ni; exact H | exact Hc].
+Qed.
+Print Assumptions C05_hourly_public_ni.
+
+(* selection that looks at the usage cell (records without any reading discarded before the de-duplication) breaks it,
+   however the rows are counted: with usage the meter record survives and the hour is predicted from a gap-filled
+   temperature (0), without usage the weather record survives (70) *)
+Theorem C05_hourly_public_refuted_drop_empty : forall pol, ~ C05_hourly_public_statement DropEmptyKeepFirst pol.
+Proof.
+  intros pol H.
+  specialize (H (option Z) Z unit Z unit Z weather_oracles temp_empty one_day_calendar fill_zero (fun l => l)
+                [((6, 2), 0)]%Z (witness_recs (Some tt)) (witness_recs None)).
+  assert (S : same_records_but_usage (witness_recs (Some tt)) (witness_recs None)) by (vm_compute; reflexivity).
+  specialize (H S). assert (Cv : covers [((6, 2), 0)]%Z (witness_stage DropEmptyKeepFirst (witness_recs (Some tt))) = true)
+    by (vm_compute; reflexivity).
+  specialize (H Cv). destruct pol as [[|] [|]]; vm_compute in H;
+    specialize (H 0%Z 0%Z 70%Z (or_introl eq_refl) (or_introl eq_refl)); discriminate.
+Qed.
+Print Assumptions C05_hourly_public_refuted_drop_empty.
+
+Example C05_hourly_public_witness :
+  (exists out, hourly_flow weather_oracles count_rows_only [((6, 2), 0)]%Z (witness_stage KeepFirst (witness_recs (Some tt))) = Ok out
+               /\ In (0%Z, Some 0%Z) out) /\
+  (exists out, hourly_flow weather_oracles count_rows_only [((6, 2), 0)]%Z (witness_stage KeepFirst (witness_recs None)) = Ok out
+               /\ In (0%Z, Some 0%Z) out) /\
+  (exists out, hourly_flow weather_oracles count_rows_only [((6, 2), 0)]%Z (witness_stage DropEmptyKeepFirst (witness_recs None)) = Ok out
+               /\ In (0%Z, Some 70%Z) out).
+Proof. repeat split; eexists; (split; [vm_compute; reflexivity | left; reflexivity]). Qed.
+
 (* ================================================================== CalTRACK hourly ======================= *)
 
 (* the predicted column is a function of index, calendar and temperature; only the uncertainty column reads usage *)
